@@ -309,7 +309,18 @@ def run(fx, rep):
                 ts = m6.pv.of_operand({'k': 'Copy', 'place': st['rv']['place']})
                 pty = m6.b.locals[st['rv']['place']['l']]['ty'] if not st['rv']['place'].get('p') else ''
                 if pty == 'cel_interpreter::objects::Value' and any(F.term_contains(x, lambda y: y[0] == 'call' and y[1] in RESOLVE6) for x in ts):
-                    kinds = sorted(vnames[int(v)] for v, _ in t['arms'] if int(v) < len(vnames))
+                    kinds = []
+                    alltg = [k for _, k in t['arms']] + [t['otherwise']]
+                    for v, tg in t['arms']:
+                        if int(v) >= len(vnames):
+                            continue
+                        own = m6.b.reachable_from([tg]) - set().union(*[m6.b.reachable_from([o]) for o in alltg if o != tg])
+                        rejects = any(st['k'] == 'Assign' and st['rv']['k'] == 'Aggregate' and st['rv'].get('variant') == 'UnsupportedUnaryOperator' for e in own for st in m6.b.blocks[e]['stmts'])
+                        accepts = any((st['k'] == 'Assign' and st['rv']['k'] == 'Aggregate' and (st['rv'].get('adt') or '').endswith('objects::Value')) for e in own for st in m6.b.blocks[e]['stmts']) or \
+                            any(m6.b.blocks[e]['term']['k'] == 'Call' and re.search(r'::(checked_|wrapping_|saturating_)?(neg|sub|sub_unsigned|abs)$', F.norm_callee(m6.b.blocks[e]['term']) or '') for e in own)
+                        if accepts or not rejects:
+                            kinds.append(vnames[int(v)])
+                    kinds = sorted(kinds)
         if kinds is not None:
             break
     rep.check(kinds == ['Float', 'Int'], 'R6', 'neg/operand-kinds', m6.arms()['-_']['loc'], 'arms for Int and Float, everything else UnsupportedUnaryOperator',
